@@ -92,47 +92,93 @@ def Obs.text (o : Obs) : String :=
 def TStatus.finished : TStatus → Bool
   | .ok | .err => true | _ => false
 
+/-- the clauses about one thread `k` with current observation `t`, previous observation `tp`;
+`aft` = the thread took its first step when a Close had already returned -/
+def checkThread (p o : Obs) (closeReturned : Bool) (k : Kind) (t tp : TObs) (aft : Bool) : Option String :=
+  if k == .close && t.st == .err then some "close-returned-error"
+  else if k == .close && t.st == .ok && !o.done then some "close-returned-before-done"
+  else if k == .waitDone && t.st.finished && !o.done then some "done-wait-returned-early"
+  else if !k.isExec then none
+  -- in flight = started, not yet returned, has run Python code
+  else if t.st == .running && decide (t.bodies > 0) && closeReturned then some "close-returned-while-execution-in-flight"
+  else if t.st == .running && decide (t.bodies > 0) && o.done then some "done-while-execution-in-flight"
+  else if decide (t.bodies > tp.bodies) && decide (p.cb > 0) then some "body-ran-after-callbacks"
+  else if aft && decide (t.bodies > 0) then some "executed-after-close"
+  else if aft && t.st == .ok then some "admitted-after-close"
+  else if t.st == .ok && t.bodies != k.bodies then some "success-without-complete-run"
+  else if t.st == .err && t.bodies != 0 then some "error-after-partial-run"
+  else none
+
 /-- check one observation `o` (after a step) against the previous one `p`.
-`after[i]` = thread i took its first step when a Close had already returned. -/
-def checkObs (kinds : List Kind) (p o : Obs) (after : List Bool) : Option String := Id.run do
+`after[i]` = thread i took its first step when a Close had already returned.
+(Pure functional form; the Go harness carries a transcription, `c09Check`.) -/
+def checkObs (kinds : List Kind) (p o : Obs) (after : List Bool) : Option String :=
   let ks := kinds.zip (o.ths.zip (p.ths.zip after))
-  if o.ths.any (·.st == .panicked) then return some "panic"
-  if o.cb > 1 then return some "callbacks-twice"
-  if o.done && o.cb != 1 then return some "done-before-callbacks"
-  if p.done && !o.done then return some "done-reopened"
-  let closeReturned := ks.any fun (k, t, _) => k == .close && t.st.finished
-  for (k, t, tp, aft) in ks do
-    if k == .close then
-      if t.st == .err then return some "close-returned-error"
-      if t.st == .ok && !o.done then return some "close-returned-before-done"
-    if k == .waitDone then
-      if t.st.finished && !o.done then return some "done-wait-returned-early"
-    if k.isExec then
-      let inFlight := t.st == .running && t.bodies > 0
-      if inFlight && closeReturned then return some "close-returned-while-execution-in-flight"
-      if inFlight && o.done then return some "done-while-execution-in-flight"
-      if t.bodies > tp.bodies && p.cb > 0 then return some "body-ran-after-callbacks"
-      if aft && t.bodies > 0 then return some "executed-after-close"
-      if aft && t.st == .ok then return some "admitted-after-close"
-      if t.st == .ok && t.bodies != k.bodies then return some "success-without-complete-run"
-      if t.st == .err && t.bodies != 0 then return some "error-after-partial-run"
-  return none
+  if o.ths.any (·.st == .panicked) then some "panic"
+  else if o.cb > 1 then some "callbacks-twice"
+  else if o.done && o.cb != 1 then some "done-before-callbacks"
+  else if p.done && !o.done then some "done-reopened"
+  else
+    let closeReturned := ks.any fun x => x.1 == .close && x.2.1.st.finished
+    ks.findSome? fun x => checkThread p o closeReturned x.1 x.2.1 x.2.2.1 x.2.2.2
+
+/-- a thread that starts in this step started "after Close" if a Close had returned before the step -/
+def afterNext (kinds : List Kind) (prev o : Obs) (after : List Bool) : List Bool :=
+  let closeReturnedBefore := (kinds.zip prev.ths).any fun x => x.1 == .close && x.2.st.finished
+  (after.zip (prev.ths.zip o.ths)).map fun x =>
+    if x.2.1.st == .notStarted && x.2.2.st != .notStarted then closeReturnedBefore else x.1
+
+def monitorFrom (kinds : List Kind) : Obs → List Bool → Nat → List Obs → String
+  | _, _, _, [] => "OK"
+  | prev, after, i, o :: rest =>
+    let after' := afterNext kinds prev o after
+    match checkObs kinds prev o after' with
+    | some why => s!"BAD@{i}:{why}"
+    | none => monitorFrom kinds o after' (i + 1) rest
+
+/-- the observation before anything happened -/
+def Obs.init (kinds : List Kind) : Obs := { done := false, cb := 0, ths := kinds.map fun _ => ⟨.notStarted, 0⟩ }
 
 /-- the monitor: "OK" or the first violated clause -/
-def monitor (kinds : List Kind) (obs : List Obs) : String := Id.run do
-  let mut prev : Obs := { done := false, cb := 0, ths := kinds.map fun _ => ⟨.notStarted, 0⟩ }
-  let mut after : List Bool := kinds.map fun _ => false
-  let mut i := 0
-  for o in obs do
-    -- a thread that starts in this step started "after Close" if a Close had returned before the step
-    let closeReturnedBefore := (kinds.zip prev.ths).any fun (k, t) => k == .close && t.st.finished
-    after := (after.zip (prev.ths.zip o.ths)).map fun (a, tp, t) =>
-      if tp.st == .notStarted && t.st != .notStarted then closeReturnedBefore else a
-    match checkObs kinds prev o after with
-    | some why => return s!"BAD@{i}:{why}"
-    | none => pure ()
-    prev := o
-    i := i + 1
-  return "OK"
+def monitor (kinds : List Kind) (obs : List Obs) : String :=
+  monitorFrom kinds (Obs.init kinds) (kinds.map fun _ => false) 0 obs
+
+/-! ### scheduling steps (what one token of a schedule does) -/
+
+/-- thread-local instructions: they carry no yield point -/
+def Instr.silent : Instr → Bool
+  | .ret .. | .brErr _ | .jmpBack _ | .body | .work => true
+  | _ => false
+
+def runSilent (P : Kind → List Instr) (t : Nat) : Nat → State → State
+  | 0, s => s
+  | fuel + 1, s =>
+    match s.ths[t]? with
+    | none => s
+    | some th =>
+      match th.next P with
+      | some i => if i.silent && !th.panicked then
+                    match step P s t with
+                    | some s' => runSilent P t fuel s'
+                    | none => s
+                  else s
+      | none => s
+
+/-- the thread is parked at a yield point (a shared-state access) or has returned -/
+def Thread.parked (P : Kind → List Instr) (th : Thread) : Bool :=
+  match th.next P with
+  | some i => !i.silent
+  | none => true
+
+/-- one scheduling step: the visible action thread `t` is parked at, then its thread-local
+instructions up to the next yield point (the thread must get there: `none` otherwise) -/
+def macroStep (P : Kind → List Instr) (s : State) (t : Nat) : Option State :=
+  match step P s t with
+  | none => none
+  | some s' =>
+    let s'' := runSilent P t 64 s'
+    match s''.ths[t]? with
+    | some th => if th.panicked || th.parked P then some s'' else none
+    | none => none
 
 end GPy.C09
